@@ -62,7 +62,7 @@ def gen_case(r, i=0):
     for _ in range(r.randint(1, 7)):
         l = r.choice(labs + labs + UNDEF)
         uses.append([variant(r, l) if l not in UNDEF else l, r.choice(["full", "collapsed", "shortcut"]),
-                     r.choice(["p", "p", "quote", "list", "em", "heading"])])
+                     r.choice(["p", "p", "quote", "list", "em", "heading", "html"])])
     # interleave: each def is a block; uses are blocks; random order
     blocks = [("def", j) for j in range(len(defs))] + [("use", j) for j in range(len(uses))]
     r.shuffle(blocks)
@@ -110,6 +110,11 @@ def gen_case(r, i=0):
                 out.append("- i %s\n" % t)
             elif place == "em":
                 out.append("a *e %s* b\n" % t)
+            elif place == "html":
+                # next to inline HTML that is not an open anchor: other tags (also ones whose name begins with "a"), a closed anchor
+                out.append(r.choice(["text <abbr title=x>%s</abbr> end\n", "text <area shape=r> %s\n", "pre <b>%s</b> <i>x</i>\n", "text <AUDIO src=q> %s\n",
+                                     "see <a href=/z>z</a> then %s\n", "x <acronym>%s</acronym>\n", "x <a href=/z>z</a><abbr>%s</abbr>\n", "x <!-- a --> %s <br/>\n"])
+                           % t.replace("\n", " "))
             else:
                 out.append("## h %s\n" % t.replace("\n", " "))
     return {"defs": [defs[j] for j in def_order], "uses": uses, "doc": "\n".join(out),
@@ -234,7 +239,7 @@ def oracle(ctx, extra):
             "rule": "1-5 labels (ASCII, German sharp s, Greek with final sigma, dotted capital I, multi-word), each defined 1-3 "
                     "times with case/white-space variants (tabs, newlines, runs) at top level, in a quote, a bullet or ordered "
                     "item, a quote in a list, or 4 containers deep; 1-7 uses (full, collapsed, shortcut form; in paragraphs, "
-                    "quotes, items, emphasis, headings) of defined and undefined labels; a third of the documents converted with add_toc_hook installed; all blocks shuffled so uses come "
+                    "quotes, items, emphasis, headings, next to inline HTML that is not an open anchor) of defined and undefined labels; a third of the documents converted with add_toc_hook installed; all blocks shuffled so uses come "
                     "before and after definitions; expected = first definition in document order with the same key under "
                     "an independent statement of the normalisation; distinct by document",
             "samples": [json.dumps(cases[0]["doc"])]}
